@@ -581,7 +581,8 @@ impl<'a, 'e, 'ast> Visit<'ast> for Rewriter<'a, 'e> {
         }
         // R3: V.extend(E)
         else if name == "extend" && m.args.len() == 1 {
-            let pieces = vec![Self::lit("shim_extend(&mut "), self.sub(m.receiver.span()), Self::lit(", "), self.sub(m.args[0].span()), Self::lit(")")];
+            let f = if matches!(&m.args[0], syn::Expr::Reference(_)) { "shim_extend_ref(&mut " } else { "shim_extend(&mut " };
+            let pieces = vec![Self::lit(f), self.sub(m.receiver.span()), Self::lit(", "), self.sub(m.args[0].span()), Self::lit(")")];
             self.ed.replace(a, b, pieces, "R3");
             self.fire("R3");
         }
@@ -592,6 +593,24 @@ impl<'a, 'e, 'ast> Visit<'ast> for Rewriter<'a, 'e> {
                     let pieces = vec![Self::lit("shim_sum_lens(&"), self.sub(x.span()), Self::lit(")")];
                     self.ed.replace(a, b, pieces, "R5");
                     self.fire("R5");
+                }
+            }
+        }
+        // R14: (0..N).map(|_| C).collect()  ->  shim_fill_vec(N, C)
+        else if name == "collect" && m.args.is_empty() {
+            if let Some((inner, margs)) = Self::is_method(&m.receiver, "map", 1) {
+                let mut rg: &syn::Expr = &inner;
+                while let syn::Expr::Paren(p) = rg { rg = &p.expr; }
+                if let (syn::Expr::Range(r), syn::Expr::Closure(c)) = (rg, &margs[0]) {
+                    if let (Some(lo), Some(hi)) = (&r.start, &r.end) {
+                        let lo_zero = matches!(&**lo, syn::Expr::Lit(syn::ExprLit { lit: syn::Lit::Int(n), .. }) if n.base10_digits() == "0");
+                        let wild = c.inputs.len() == 1 && matches!(c.inputs[0], syn::Pat::Wild(_));
+                        if lo_zero && wild && matches!(&*c.body, syn::Expr::Lit(_)) {
+                            let pieces = vec![Self::lit("shim_fill_vec("), self.sub(hi.span()), Self::lit(", "), self.sub(c.body.span()), Self::lit(")")];
+                            self.ed.replace(a, b, pieces, "R14");
+                            self.fire("R14");
+                        }
+                    }
                 }
             }
         }
@@ -824,7 +843,16 @@ fn process_fn(ctx: &mut Ctx, d: &FnDirective, assume_default: bool, tfile: &str)
                     let (s, _) = src.range(last.span());
                     ed.insert(s, format!("{}        ", t), 2, a);
                 }
-                "at_end" => ed.insert(block_close, format!("{}    ", t), 3, a),
+                "at_end" => {
+                    // end of the body: before a tail expression if the body has one, else at the closing brace
+                    match loc.block.stmts.last() {
+                        Some(syn::Stmt::Expr(e, None)) => {
+                            let (s, _) = src.range(e.span());
+                            ed.insert(s, format!("{}        ", t), 2, a)
+                        }
+                        _ => ed.insert(block_close, format!("{}    ", t), 3, a),
+                    }
+                }
                 _ => lost("unknown anchor kind"),
             }
             anchors_used.push(a.clone());
@@ -886,7 +914,8 @@ fn process_item(ctx: &mut Ctx, file: &str, name: &str, opts: &Opts, tfile: &str,
     let mut found: Option<(Span, &[syn::Attribute], Option<Span>)> = None;
     for it in &src.ast.items {
         let (id, attrs, sp, vis): (String, &[syn::Attribute], Span, Option<Span>) = match it {
-            syn::Item::Struct(s) => (s.ident.to_string(), &s.attrs, s.span(), Some(s.vis.span())),
+            syn::Item::Struct(s) if matches!(s.vis, syn::Visibility::Inherited) => (s.ident.to_string(), &s.attrs, s.span(), Some(s.struct_token.span())),
+            syn::Item::Struct(s) => (s.ident.to_string(), &s.attrs, s.span(), None),
             syn::Item::Enum(s) => (s.ident.to_string(), &s.attrs, s.span(), Some(s.vis.span())),
             syn::Item::Const(s) => (s.ident.to_string(), &s.attrs, s.span(), Some(s.vis.span())),
             syn::Item::Static(s) => (s.ident.to_string(), &s.attrs, s.span(), Some(s.vis.span())),
@@ -899,7 +928,7 @@ fn process_item(ctx: &mut Ctx, file: &str, name: &str, opts: &Opts, tfile: &str,
             break;
         }
     }
-    let (sp, attrs, _vis) = found.unwrap_or_else(|| fail(format!("{}:{}: item {} not found in {}", tfile, tline, name, file)));
+    let (sp, attrs, kw) = found.unwrap_or_else(|| fail(format!("{}:{}: item {} not found in {}", tfile, tline, name, file)));
     let (mut a, b) = src.range(sp);
     if let Some(at) = attrs.first() {
         let s = src.range(at.span()).0;
@@ -909,6 +938,11 @@ fn process_item(ctx: &mut Ctx, file: &str, name: &str, opts: &Opts, tfile: &str,
     }
     let mut ed = Editor::new(&src.text);
     let mut notes = vec![];
+    if let (Some(v), Some(k)) = (opts.get("vis"), kw) {
+        // a private struct is made visible to the spec functions of the unit (single module: no effect on behaviour)
+        ed.insert(src.range(k).0, format!("{} ", v), 0, "vis");
+        notes.push(format!("visibility {} added", v));
+    }
     for at in attrs {
         let is_derive = at.path().is_ident("derive");
         let is_doc = at.path().is_ident("doc");
@@ -993,6 +1027,57 @@ fn process_template(ctx: &mut Ctx, path: &Path, assume: bool, depth: usize) {
                     }
                     t.push_str("    }\n}\n");
                     ctx.emit(&t);
+                }
+                "stmt" => {
+                    // R9: //@stmt <file> <fn> let=<name> name=<newfn> [props=..]   followed by lines:
+                    //   //@params <text>   //@rettype <text>   //@result <expr>   //@sig ...text...   //@end
+                    let tline = i + 1;
+                    let file = words[1].to_string();
+                    let fname = words[2].to_string();
+                    let o = Opts::parse(&words[3..]);
+                    let letname = o.get("let").unwrap_or_else(|| fail(format!("{}:{}: //@stmt needs let=", tfile, tline))).to_string();
+                    let newname = o.get("name").unwrap_or_else(|| fail(format!("{}:{}: //@stmt needs name=", tfile, tline))).to_string();
+                    let props: Vec<String> = o.get("props").map(|p| p.split(',').map(|s| s.to_string()).collect()).unwrap_or_default();
+                    let (mut params, mut rettype, mut result, mut sig) = (String::new(), String::new(), String::new(), String::new());
+                    let mut j = i + 1;
+                    let mut in_sig = false;
+                    loop {
+                        if j >= lines.len() { fail(format!("{}:{}: unterminated //@stmt", tfile, tline)); }
+                        let lt = lines[j].trim_start();
+                        if let Some(r) = lt.strip_prefix("//@") {
+                            let w: Vec<&str> = r.splitn(2, ' ').collect();
+                            in_sig = false;
+                            match w[0] {
+                                "end" => break,
+                                "params" => params = w.get(1).unwrap_or(&"").to_string(),
+                                "rettype" => rettype = w.get(1).unwrap_or(&"").to_string(),
+                                "result" => result = w.get(1).unwrap_or(&"").to_string(),
+                                "sig" => in_sig = true,
+                                x => fail(format!("{}:{}: unknown //@stmt section {}", tfile, j + 1, x)),
+                            }
+                        } else if in_sig { sig.push_str(lines[j]); sig.push('\n'); }
+                        j += 1;
+                    }
+                    ctx.src(&file);
+                    let src = &ctx.srcs[&file];
+                    let loc = find_fn(&src.ast.items, &fname).unwrap_or_else(|| fail(format!("{}:{}: function {} not found in {}", tfile, tline, fname, file)));
+                    let mut scan = Scan { src, loops: vec![], stmts: vec![], calls: vec![] };
+                    scan.visit_block(loc.block);
+                    let st = scan.stmts.iter().find(|s| s.lets.iter().any(|l| *l == letname))
+                        .unwrap_or_else(|| fail(format!("{}:{}: lost anchor: no `let {}` in {}", tfile, tline, letname, fname)));
+                    let (a, b) = st.range;
+                    let text = src.text[a..b].to_string();
+                    let (l0, l1) = (src.line_of(a), src.line_of(b));
+                    let start_line = ctx.out_line + 1;
+                    let h = sha(&text);
+                    ctx.emit(&format!("// >>> extracted statement `let {}` of {} from /repo/{}:{}-{} (R9: outlined into a function) [{}]\n", letname, fname, file, l0, l1, props.join(",")));
+                    ctx.emit(&format!("fn {}({}) -> (r: {})\n{}{{\n        {}\n        {}\n}}\n", newname, params, rettype, sig, text, result));
+                    let end_line = ctx.out_line;
+                    ctx.emit(&format!("// <<< {}\n", newname));
+                    ctx.regions.push(json!({"kind": "fn", "name": newname, "mode": "prove", "props": props, "out_lines": [start_line, end_line],
+                        "repo_file": file, "repo_lines": [l0, l1], "src_fnv64": h, "abort_allowed": false, "rules": {"R9": 1}, "anchors": [], "template": format!("{}:{}", tfile, tline)}));
+                    *ctx.rules_fired.entry("R9".into()).or_insert(0) += 1;
+                    i = j;
                 }
                 "proofonly" => {
                     if assume {
